@@ -152,6 +152,70 @@ func runTimepb(cfg *Cfg) {
 			out.Violate("C17", "compare-antisym", "Compare(a,b) != -Compare(b,a)", fmt.Sprintf("tscmp %d %d %d %d", s, ns, s2, n2))
 		}
 	}
+	// exhaustive pass over boundary values taken from the SOURCE (integer constants of support/timepb incl. folded
+	// constant expressions, VERIF_SRC_CONSTS): every such constant c as seconds, next to c±1, -c, MaxInt64-c,
+	// MinInt64+c, crossed with the duration boundaries and with nanos pairs that carry, borrow or do neither
+	var hsec []int64
+	seenS := map[int64]bool{}
+	addS := func(v *big.Int) {
+		if v.IsInt64() && !seenS[v.Int64()] {
+			seenS[v.Int64()] = true
+			hsec = append(hsec, v.Int64())
+		}
+	}
+	maxI, minI := big.NewInt(math.MaxInt64), big.NewInt(math.MinInt64)
+	consts := srcConsts("support/timepb")
+	consts = append(consts, big.NewInt(315576000000), big.NewInt(maxS), big.NewInt(minS))
+	for _, c := range consts {
+		for d := int64(-1); d <= 1; d++ {
+			cd := new(big.Int).Add(c, big.NewInt(d))
+			addS(cd)
+			addS(new(big.Int).Neg(cd))
+			addS(new(big.Int).Sub(maxI, cd))
+			addS(new(big.Int).Add(minI, cd))
+		}
+	}
+	var hdsec []int64
+	for _, v := range append(append([]int64{}, dsecPool...), hsec...) {
+		if v >= -315576000000 && v <= 315576000000 {
+			hdsec = append(hdsec, v)
+		}
+	}
+	nanoPairs := [][2]int32{{0, 0}, {999999999, 1}, {999999999, 999999999}, {0, -1}, {1, -999999999}, {500000000, 499999999}, {0, 999999999}, {999999999, -999999999}}
+	for _, s := range hsec {
+		for _, ds := range hdsec {
+			for _, np := range nanoPairs {
+				ns, dn := np[0], np[1]
+				if (ds > 0 && dn < 0) || (ds < 0 && dn > 0) {
+					dn = -dn
+				}
+				t := &tspb.Timestamp{Seconds: s, Nanos: ns}
+				d := &durpb.Duration{Seconds: ds, Nanos: dn}
+				line := fmt.Sprintf("tsadd %d %d %d %d", s, ns, ds, dn)
+				out.Case(line, true)
+				out.Count("source_constant_cases")
+				var res *tspb.Timestamp
+				p, _ := guard(func() { res = timepb.Add(t, d) })
+				exact := new(big.Int).Add(instOf(s, ns), instOf(ds, dn))
+				q, m := new(big.Int).DivMod(exact, big.NewInt(1e9), new(big.Int))
+				if ds == 0 && dn == 0 {
+					q, m = big.NewInt(s), big.NewInt(int64(ns))
+				}
+				switch {
+				case p && q.IsInt64():
+					out.Violate("C17", "add-spurious-panic", "Add panicked although t+d is representable", line)
+				case p:
+					out.Line("C17", line, "panic")
+				case !q.IsInt64():
+					out.Violate("C17", "add-wrapped", fmt.Sprintf("Add returned {%d,%d} although the seconds sum overflows", res.Seconds, res.Nanos), line)
+				case res.Seconds != q.Int64() || int64(res.Nanos) != m.Int64():
+					out.Violate("C17", "add-inexact", fmt.Sprintf("Add=%d,%d exact normalised=%d,%d", res.Seconds, res.Nanos, q.Int64(), m.Int64()), line)
+				default:
+					out.Line("C17", line, fmt.Sprintf("ok %d %d", res.Seconds, res.Nanos))
+				}
+			}
+		}
+	}
 	if timepb.Add(nil, &durpb.Duration{Seconds: 1}) != nil || timepb.AddStd(nil, time.Second) != nil {
 		out.Violate("C17", "nil", "Add(nil) != nil", "tsadd nil")
 	}
